@@ -20,6 +20,10 @@ def make_cases(tier, rng):
             ops = [rng.choice(OPS) for _ in range(rng.randint(1, 5))]
             if tier == "quick" and "broker_h2p" not in ops and rng.random() < 0.5:
                 ops.append("broker_h2p")
+            if p != "netrpc" and rng.random() < 0.5:
+                # the plugin accepts one more brokered id while it handles the shutdown request, i.e.
+                # after the host has closed its side of the broker
+                ops.append("accept_during_shutdown")
             cases.append({"name": "l%d" % len(cases), "proto": p, "tls": t, "launch": l, "ops": ops})
     return cases
 
@@ -48,8 +52,8 @@ def run(tier, seed):
         kinds = []
         if out.get("leftover_sockets"):
             # which listener kind could have created them: after the graceful exit only plugin-side sockets can remain in a plain gRPC history with broker_h2p
-            plugin_brokered = c["proto"] == "grpc" and "broker_h2p" in c["ops"]
-            n_h2p = c["ops"].count("broker_h2p")
+            plugin_brokered = c["proto"] == "grpc" and ("broker_h2p" in c["ops"] or "accept_during_shutdown" in c["ops"])
+            n_h2p = c["ops"].count("broker_h2p") + c["ops"].count("accept_during_shutdown")
             if plugin_brokered and len(out["leftover_sockets"]) <= n_h2p and all(s.startswith("socket:plugin") for s in out["leftover_sockets"]):
                 kinds.append("socket:plugin_brokered:grpc")
             else:
